@@ -52,6 +52,7 @@ static int domain_offset(const char *name, int nl)
 	return nl - dl;
 }
 
+static int NS_IP_SET;
 static void ask(const char *name, int nl, int qtype, int edns)
 {
 	uint8_t wire[400], pkt[800];
@@ -106,7 +107,10 @@ static void ask(const char *name, int nl, int qtype, int edns)
 	}
 	if (answers > 1) viol("more-than-one-answer", "domain %s, type %d query for %s got %d answers", DOMAIN, qtype, shown, answers);
 	if (answers == 0) xp_count(K_SILENT, 1);
-	if ((qtype == 2 || (qtype == 1 && ((doff == 3 && !strncasecmp(name, "ns.", 3)) || (doff == 4 && !strncasecmp(name, "www.", 4))))) && doff >= 0 && answers == 0)
+	/* (an A query for ns.<domain> that arrives over IPv6 while no external address is configured cannot be answered: the
+	 * server knows no IPv4 address of its own and deliberately stays silent, see handle_a_request(); not demanded) */
+	int no_v4_known = X_ADDR.ss_family == AF_INET6 && !NS_IP_SET && qtype == 1 && doff == 3;
+	if ((qtype == 2 || (qtype == 1 && ((doff == 3 && !strncasecmp(name, "ns.", 3)) || (doff == 4 && !strncasecmp(name, "www.", 4))))) && doff >= 0 && answers == 0 && !no_v4_known)
 		viol(qtype == 2 ? "ns-query-not-answered" : "ns-www-not-answered-with-address", "domain %s: type %d query for %s got no answer", DOMAIN, qtype, shown);
 	xp_outcome(((uint64_t)qtype << 40) ^ ((uint64_t)(doff >= 0) << 39) ^ ((uint64_t)answers << 32) ^ (uint64_t)(adv_nout ? adv_outs[0].len : 0));
 }
@@ -126,13 +130,20 @@ static int under(char *out, const char *prefix, int pl, const char *wildlabel)
 static const int TYPES[] = { 2, 1, 10, 65399, 16, 33, 15, 5, 28 };
 #define NTYPES 9
 
-static void job(int dj)
+/* job = (tunnel domain, how the query reaches the server): IPv4 asker; IPv6 asker on the IPv6 listening socket;
+ * IPv6 asker with an external address configured (-n) */
+static struct sockaddr_storage X4, X6; static socklen_t ALEN4, ALEN6;
+static void job(int j)
 {
+	int dj = j % NDOM, variant = j / NDOM;
+	if (variant == 0) { X_ADDR = X4; ALEN = ALEN4; } else { X_ADDR = X6; ALEN = ALEN6; }
 	struct w_server_cfg c = { .topdomain = DOMS[dj], .password = "x", .my_ip = "10.0.0.1", .netmask = 29, .mtu = 1130, .check_ip = 1, .bind_port = 5353, .srand_seed = 1 };
 	DOMAIN = DOMS[dj];
 	vw_init();
 	W.hooks.on_sanitizer = on_san;
-	adv_boot(&c, 0, 1);
+	if (variant == 2) c.ns_ip = "192.0.2.53";
+	NS_IP_SET = variant == 2;
+	adv_boot(&c, variant != 0, 1);
 	char name[600], pre[300];
 	static const char SYM[] = { 'a', 'A', '0', '-', (char)0xe9, 'z', 'n', 'w' };
 	int nsym = thorough ? 8 : 6;
@@ -185,7 +196,7 @@ static void job(int dj)
 		int nl = snprintf(name, sizeof name, "%.*s.elsewhere.org", pl, pre);
 		ask(name, nl, 1, 0); ask(name, nl, 15, 1);
 	}
-	xp_sample("tunnel domain %s: label families up to 3 labels, ns./www. variants, first-label lengths 1..63 x 9 record types, maximal names, forwarded names; last name asked: %.50s..", DOMAIN, name);
+	xp_sample("%s, tunnel domain %s: label families up to 3 labels, ns./www. variants, first-label lengths 1..63 x 9 record types, maximal names, forwarded names; last name asked: %.50s..", variant == 0 ? "IPv4 asker" : variant == 1 ? "IPv6 asker" : "IPv6 asker, -n 192.0.2.53", DOMAIN, name);
 	__atomic_fetch_add(&XS->execs, 1, __ATOMIC_RELAXED);
 }
 
@@ -193,11 +204,12 @@ int main(int argc, char **argv)
 {
 	hc_args a = hc_parse(argc, argv, "C10aux");
 	thorough = a.thorough;
-	vw_mkaddr(&X_ADDR, &ALEN, "203.0.113.9", 4999); vw_mkaddr(&LOCALDNS, &ALEN, "127.0.0.1", 5353);
+	vw_mkaddr(&X4, &ALEN4, "203.0.113.9", 4999); vw_mkaddr6(&X6, &ALEN6, "2001:db8::9", 4999); vw_mkaddr(&LOCALDNS, &ALEN, "127.0.0.1", 5353);
+	X_ADDR = X4; ALEN = ALEN4;
 	xp_init("C10", a.tier, 1024, a.budget_s);
 	if (a.replay) { xp_load_replay(a.replay); job(XC.job); return 0; }
 	hc_quiet();
-	xp_run_jobs(NDOM, job, a.workers);
+	xp_run_jobs(NDOM * 3, job, a.workers);
 	XS->states = XS->counters[K_QUERIES]; XS->transitions = XS->counters[K_QUERIES] + XS->counters[K_ANSWERS] + XS->counters[K_FWD];
 	char extra[400];
 	snprintf(extra, sizeof extra, "\"aux_queries\":%ld,\"aux_answers_parsed\":%ld,\"ns_answers_checked\":%ld,\"a_answers_checked\":%ld,\"forwarded_copies_parsed\":%ld,\"unanswered\":%ld,\"domains\":%d,\"sanitizer_notes\":%ld",
